@@ -94,7 +94,7 @@ def run_scalars(ctx):
     from mitxgraders import RealInterval, IntegerRange, ComplexRectangle, ComplexSector, DiscreteSet
     from mitxgraders.helpers.calc import MathArray
     rng = ctx.rng
-    ndraw = ctx.pick(25, 200)
+    ndraw = ctx.pick(25, 1000)
     intervals = [[1, 5], [5, 1], [-3, -1], [-1, -3], [2, 2], [0, 1e-9], [-1e6, 1e6], [0.5, 0.75], [-2.5, 4], [0, 0]]
     # one-point intervals: the only member is the point itself, exactly (no rounding tolerance applies to a single point)
     intervals += [[x, x] for x in (3.14, 2.718281828, -1.3, 0.1, 1e-7, 123456.789, 1 / 3.)]
@@ -214,7 +214,7 @@ def run_arrays(ctx):
                              ComplexTensors, IdentityMatrixMultiples, RealInterval, IntegerRange,
                              ComplexRectangle, ComplexSector)
     rng = ctx.rng
-    ndraw = ctx.pick(8, 100)
+    ndraw = ctx.pick(8, 400)
     norms = [[1, 5], [1, 1], [5, 10], [0.001, 0.002], [10, 5], [100, 100]]
     for shape in (1, 2, 3, 4, 7, [3], (5,)):
         for norm in norms:
@@ -297,7 +297,7 @@ def run_arrays(ctx):
 def run_square(ctx):
     from mitxgraders import SquareMatrices
     from mitxgraders.exceptions import ConfigError
-    ndraw = ctx.pick(5, 100)
+    ndraw = ctx.pick(5, 400)
     combos = list(itertools.product((2, 3, 4, 5), SYMS, (False, True), (None, 0, 1), (False, True)))
     accepted = 0
     for idx, (dim, sym, traceless, det, cplx) in enumerate(combos):
@@ -360,8 +360,8 @@ def run_functions(ctx):
     from mitxgraders import RandomFunction, SpecificFunctions
     from mitxgraders.helpers.calc import MathArray
     rng = ctx.rng
-    nfun = ctx.pick(3, 10)
-    npts = ctx.pick(12, 60)
+    nfun = ctx.pick(3, 30)
+    npts = ctx.pick(12, 150)
     combos = list(itertools.product((1, 2, 3, 4), (1, 2, 3), (1, 3, 5), (0, -2.5, 7), (10, 1, 0.5), (False, True)))
     for idx, (ind, outd, terms, center, amp, cplx) in enumerate(combos):
         if not ctx.mine(idx):
